@@ -819,7 +819,8 @@ class CompressedBytesColumn(Column):
 
         def __iter__(self):
             for v in VarBytesColumn.Reader.__iter__(self):
-                yield self._decompress(v)
+                # (a document without a value has an empty entry)
+                yield self._decompress(v) if v else v
 
         def load(self):
             return list(self)
